@@ -103,7 +103,7 @@ pub fn run(out: &mut Out, seed: u64, tier: &str) {
             let wide = *na >= 3 && case % 8 == 7;
             // bends are also probed a hair away from straight (1e-6.5 .. 1e-3 rad: what five written decimals leave of a straight line);
             // their energies are smooth through 180 degrees, so the gradient there is an ordinary number, not a limit
-            let grazing = *na == 3 && case % 8 == 5;
+            let grazing = (*na == 3 && case % 8 == 5) || (*na == 4 && case % 16 == 5);
             let mut graze_delta = 0.0f64;
             if wide || grazing {
                 let sub = |a: &Point, b: &Point| [a.x - b.x, a.y - b.y, a.z - b.z];
@@ -153,7 +153,7 @@ pub fn run(out: &mut Out, seed: u64, tier: &str) {
             // oracle 1: finite differences (only where the geometry is well conditioned and near the origin)
             let near_origin = x.iter().all(|p| p.x.abs() < 10.0);
             let far_apart = x.iter().enumerate().all(|(i, p)| (0..i).all(|j| { let q = &x[j]; ((p.x - q.x).powi(2) + (p.y - q.y).powi(2) + (p.z - q.z).powi(2)).sqrt() > 0.5 }));
-            let conditioned = if grazing { far_apart && crate::s_ff::well_conditioned_grazing(&[TermDesc { kind, idxs: (0..*na).collect(), params: params.clone() }], &x) } else if wide { crate::s_ff::well_conditioned_with(&[TermDesc { kind, idxs: (0..*na).collect(), params: params.clone() }], &x, 0.03) && x.iter().enumerate().all(|(i, p)| (0..i).all(|j| { let q = &x[j]; ((p.x - q.x).powi(2) + (p.y - q.y).powi(2) + (p.z - q.z).powi(2)).sqrt() > 0.5 })) }
+            let conditioned = if grazing && *na == 4 { false } else if grazing { far_apart && crate::s_ff::well_conditioned_grazing(&[TermDesc { kind, idxs: (0..*na).collect(), params: params.clone() }], &x) } else if wide { crate::s_ff::well_conditioned_with(&[TermDesc { kind, idxs: (0..*na).collect(), params: params.clone() }], &x, 0.03) && x.iter().enumerate().all(|(i, p)| (0..i).all(|j| { let q = &x[j]; ((p.x - q.x).powi(2) + (p.y - q.y).powi(2) + (p.z - q.z).powi(2)).sqrt() > 0.5 })) }
                               else { well_conditioned(kind, &params, &x) };
             if wide && conditioned { n_wide += 1; }
             if grazing && conditioned { n_graze += 1; }
